@@ -328,15 +328,18 @@ func (sr *StatusReport) UnmarshalCbor(r io.Reader) error {
 		return fmt.Errorf("Expected array of length 4 or 6, got %d", n)
 	}
 
-	if n, err := cboring.ReadArrayLength(r); err != nil {
+	n, err := cboring.ReadArrayLength(r)
+	if err != nil {
 		return err
-	} else {
-		sr.StatusInformation = make([]BundleStatusItem, int(n))
 	}
-	for i := 0; i < len(sr.StatusInformation); i++ {
-		if err := cboring.Unmarshal(&sr.StatusInformation[i], r); err != nil {
+	// n is taken from the wire: let the slice grow with the items that really arrive.
+	sr.StatusInformation = make([]BundleStatusItem, 0)
+	for i := uint64(0); i < n; i++ {
+		var si BundleStatusItem
+		if err := cboring.Unmarshal(&si, r); err != nil {
 			return fmt.Errorf("Unmarshalling BundleStatusItem failed: %v", err)
 		}
+		sr.StatusInformation = append(sr.StatusInformation, si)
 	}
 
 	if n, err := cboring.ReadUInt(r); err != nil {
